@@ -479,6 +479,40 @@ pub fn run_parent(mon: &dyn Monitor, tier: Tier, seed: u64) -> i32 {
         new_violations.push((v.clone(), path));
     }
 
+    // auxiliary sanitizer legs (thorough tier of C05 / C07 / C10): Miri + valgrind memcheck
+    let mut sanitizer = serde_json::Map::new();
+    if tier == Tier::Thorough && matches!(id, "C05" | "C07" | "C10") && std::env::var("VERIF_SANITIZERS").map(|v| v != "0").unwrap_or(true) {
+        let script = root.join("tools/sanitizers.sh");
+        match Command::new(&script).arg(id).arg(seed.to_string()).stdin(Stdio::null()).stderr(Stdio::null()).output() {
+            Ok(o) => {
+                let txt = String::from_utf8_lossy(&o.stdout).to_string();
+                let mut runs = Vec::new();
+                let (mut ok, mut rep, mut skip) = (0u64, 0u64, 0u64);
+                for l in txt.lines().filter(|l| l.starts_with("SAN ")) {
+                    let f: Vec<&str> = l.splitn(6, ' ').collect();
+                    if f.len() >= 5 {
+                        match f[4] {
+                            "ok" => ok += 1,
+                            "REPORT" => {
+                                rep += 1;
+                                hard_inconclusive.push(format!("SANITIZER-REPORT {}", l));
+                            }
+                            _ => skip += 1,
+                        }
+                        runs.push(json!(l));
+                    }
+                }
+                sanitizer.insert("runs".into(), Value::Array(runs));
+                sanitizer.insert("ok".into(), json!(ok));
+                sanitizer.insert("reports".into(), json!(rep));
+                sanitizer.insert("skipped".into(), json!(skip));
+                sanitizer.insert("note".into(), json!("auxiliary: a sanitizer report makes the run inconclusive, it cannot decide the property"));
+            }
+            Err(e) => {
+                sanitizer.insert("note".into(), json!(format!("sanitizer script could not be run: {}", e)));
+            }
+        }
+    }
     if merged.get("harness_panics") > 0 {
         hard_inconclusive.push(format!("{} case(s) ended in a panic inside the harness itself (see inconclusive_case_reasons)", merged.get("harness_panics")));
     }
@@ -519,6 +553,9 @@ pub fn run_parent(mon: &dyn Monitor, tier: Tier, seed: u64) -> i32 {
     }
     coverage.insert("observed".into(), json!(merged.counters));
     coverage.insert("floors".into(), Value::Object(floor_report));
+    if !sanitizer.is_empty() {
+        coverage.insert("sanitizer_legs".into(), Value::Object(sanitizer));
+    }
     coverage.insert("inconclusive_case_reasons".into(), json!(merged.inconclusive));
     coverage.insert("run_inconclusive_reasons".into(), json!(hard_inconclusive));
     coverage.insert("known_findings_hit".into(), json!(known_hits.iter().map(|(k, v)| json!({"signature": k, "count": v.0})).collect::<Vec<_>>()));
